@@ -16,7 +16,7 @@
      is the successor of state argument k and can be fed back. *)
 From Coq Require Import Reals List.
 From SM.specs Require Import C04_spec SourceFacts_spec.
-From SM.proofs Require Import Layout Positional SourceFacts.
+From SM.proofs Require Import Layout Positional SourceFactsLevels.
 
 Theorem C04_results_closed : results_closed.
 Proof. exact results_closed_proof. Qed.
